@@ -77,6 +77,7 @@ fn main() {
             "importers" => importers::run(sc),
             "wire" => wire::run(sc),
             "entry_points" => wire::run_entry_points(sc),
+            "writers_deterministic" => wire::run_writers_deterministic(sc),
             "text_whitespace" => wire::run_text_whitespace(sc),
             "statement" => statement::run(sc),
             "statement_doc" => statement::run_doc(sc),
